@@ -125,7 +125,7 @@ class CallMixin:
             args, kwargs = self.eval_args(node, st)
             if st.dead:
                 return None
-            return self.run_function(callee, args, kwargs, st)
+            return self.run_function(callee, args, kwargs, st, node)
         raise Unsupported('call of {} ({})'.format(fn or type(callee).__name__, unparse(node)))
 
     def namedtuple_call(self, node, st):
@@ -571,10 +571,37 @@ class CallMixin:
     def chain(self):
         return '/'.join(self.fn_stack)
 
-    def run_function(self, fv, args, kwargs, st):
+    @staticmethod
+    def is_generator(fdef):
+        if isinstance(fdef, ast.Lambda):
+            return False
+        todo = list(fdef.body)
+        while todo:
+            n = todo.pop()
+            if isinstance(n, (ast.Yield, ast.YieldFrom)):
+                return True
+            if isinstance(n, (ast.FunctionDef, ast.AsyncFunctionDef, ast.Lambda, ast.ClassDef)):
+                continue
+            todo.extend(ast.iter_child_nodes(n))
+        return False
+
+    @staticmethod
+    def consumed_on_the_spot(node):
+        """the value of this call expression (a lazy iterator) is exhausted right where it is written"""
+        parent = getattr(node, '_parent', None)
+        return (isinstance(parent, ast.Call) and any(a is node for a in parent.args)) \
+            or (isinstance(parent, ast.Assign) and parent.value is node and all(isinstance(t, (ast.Tuple, ast.List)) for t in parent.targets)) \
+            or (isinstance(parent, (ast.For, ast.comprehension)) and parent.iter is node) \
+            or (isinstance(parent, ast.Starred) and isinstance(getattr(parent, '_parent', None), ast.Call))
+
+    def run_function(self, fv, args, kwargs, st, node=None):
         """Inline a function of the analysed module.  `st` is updated in place to the join of all returning paths;
-        st.dead is set when every path raises."""
+        st.dead is set when every path raises.  A generator function (yield) is run to exhaustion and gives the list of the
+        values it yields: only where the call is consumed on the spot (unpacking, list(...), for), since its body runs lazily."""
         fdef = fv.fdef
+        gen = self.is_generator(fdef)
+        if gen and (node is None or not self.consumed_on_the_spot(node)):
+            raise Unsupported('generator {} is not consumed where it is created'.format(getattr(fdef, 'name', '?')))
         if not isinstance(fdef, ast.Lambda):
             for deco in fdef.decorator_list:
                 # memoisation of a function of its arguments does not change what it returns
@@ -601,6 +628,8 @@ class CallMixin:
             st.env = st.stack.pop()
             return None if st.dead else val
         label = fv.label or name
+        if gen:
+            env['<yields>'] = []
         st.stack.append(st.env)
         st.env = env
         self.fn_stack.append(label)
@@ -615,6 +644,9 @@ class CallMixin:
         outs = list(rets)
         if fall is not None:
             outs.append((fall, None))
+        if gen:
+            # `return` ends the iteration; what the consumer sees is the sequence yielded on the path taken
+            outs = [(s, s.env.get('<yields>', TOP)) for s, _ in outs]
         if not outs:
             st.env = st.stack.pop() if st.stack else {}
             st.dead = True
